@@ -76,3 +76,17 @@ Example C09_series_depth_padding :
   | None => False
   end.
 Proof. vm_compute. reflexivity. Qed.
+
+(* a << Row and a << dict as composite operations (Spec/SeriesEnc.v): the row's one-row table / the table _fromdict
+   builds (every value a MixedColumn, shorter values padded with '') becomes a pool member, then the concatenation *)
+Example C09_row_and_dict_operands :
+  let w := srun [SPlain (ONew 2); SPlain (OSetCol 0 "a" (RSeq [PInt 1; PInt 2]));
+                 SPlain (ONew 2); SPlain (OSetCol 1 "a" (RSeq [PInt 7; PInt 8]));
+                 SConcatRow 0 1 1%Z;
+                 SConcatDict 0 2 [("a", [PStr "9" (Some 9%Z) (Some (FFin false 9 0)); PInt 10]); ("b", [PStr "x" None None])]] w0 in
+  map (fun t => map (fun '(n, _, c) => (n, c)) (view t)) (pool w)
+  = [[("a", [VInt 1; VInt 2])]; [("a", [VInt 7; VInt 8])];
+     [("a", [VInt 8])]; [("a", [VInt 1; VInt 2; VInt 8])];
+     [("a", [VInt 9; VInt 10]); ("b", [VStr "x"; VStr ""])];
+     [("a", [VInt 1; VInt 2; VInt 9; VInt 10]); ("b", [VStr ""; VStr ""; VStr "x"; VStr ""])]].
+Proof. vm_compute. reflexivity. Qed.
